@@ -92,87 +92,87 @@ Record ostate := {
   o_has : tid -> option key;     (* the key thread t holds (Lock returned true, receive of Unlock not done) *)
   o_canc : tid -> bool;
   o_hold : key -> nat;           (* number of current holders of a key *)
-  o_seen : tid -> bool;          (* rogue Unlock only: somebody held the key at some point during the call *)
-  o_busy : nat }.                (* threads inside a call or holding a key *)
+  o_seen : tid -> bool }.        (* Unlock only: somebody held the key at some point during the call *)
 
 Definition o_init : ostate :=
   {| o_call := fun _ => None; o_phase := fun _ => 0; o_has := fun _ => None; o_canc := fun _ => false;
-     o_hold := fun _ => 0; o_seen := fun _ => false; o_busy := 0 |}.
+     o_hold := fun _ => 0; o_seen := fun _ => false |}.
 
 Definition okey_eqb (a : option key) (k : key) : bool :=
   match a with Some k' => Nat.eqb k k' | None => false end.
+
+(* threads inside a call or holding a key *)
+Definition o_busy (n : nat) (s : ostate) : nat :=
+  cnt (fun t => is_some (o_call s t) || is_some (o_has s t)) (seq 0 n).
 
 (* returns the new oracle state and a violation code (0 = fine) *)
 Definition o_step (s : ostate) (a : action) (ob : obs) : ostate * N :=
   match a, fst ob with
   | ACancel t, _ =>
       ({| o_call := o_call s; o_phase := o_phase s; o_has := o_has s; o_canc := updf (o_canc s) t true;
-          o_hold := o_hold s; o_seen := o_seen s; o_busy := o_busy s |}, 0%N)
+          o_hold := o_hold s; o_seen := o_seen s |}, 0%N)
   | ACall t o, KStepped =>
-      let was_busy := is_some (o_has s t) in
-      let seen := match o with Unlock k => Nat.ltb 0 (o_hold s k) | _ => false end in
       ({| o_call := updf (o_call s) t (Some o); o_phase := updf (o_phase s) t 0; o_has := o_has s;
-          o_canc := o_canc s; o_hold := o_hold s; o_seen := updf (o_seen s) t seen;
-          o_busy := if was_busy then o_busy s else S (o_busy s) |}, 0%N)
+          o_canc := o_canc s; o_hold := o_hold s; o_seen := updf (o_seen s) t false |}, 0%N)
   | AStep t _, KStepped =>
       let ph := S (o_phase s t) in
-      (* the second completed step of an Unlock is the receive: the key is free from here on *)
-      let releases := match o_call s t with Some (Unlock k) => Nat.eqb ph 2 && okey_eqb (o_has s t) k | _ => false end in
+      (* the second completed step of an Unlock is the receive: the key is free from here on.
+         If the caller is not the holder (allowed by the code, like sync.Mutex), the holder has
+         lost the lock: it holds nothing any more. *)
+      let is_recv := match o_call s t with Some (Unlock _) => Nat.eqb ph 2 | _ => false end in
       let k := match o_call s t with Some (Unlock k) => k | Some (Lock k) => k | None => 0 end in
       ({| o_call := o_call s; o_phase := updf (o_phase s) t ph;
-          o_has := if releases then updf (o_has s) t None else o_has s;
+          o_has := if is_recv then (fun u => if okey_eqb (o_has s u) k then None else o_has s u) else o_has s;
           o_canc := o_canc s;
-          o_hold := if releases then updf (o_hold s) k (o_hold s k - 1) else o_hold s;
-          o_seen := o_seen s; o_busy := o_busy s |}, 0%N)
+          o_hold := if is_recv then updf (o_hold s) k (o_hold s k - 1) else o_hold s;
+          o_seen := o_seen s |}, 0%N)
   | AStep t _, KTrue =>
       match o_call s t with
       | Some (Lock k) =>
           ({| o_call := updf (o_call s) t None; o_phase := o_phase s; o_has := updf (o_has s) t (Some k);
-              o_canc := o_canc s; o_hold := updf (o_hold s) k (S (o_hold s k)); o_seen := o_seen s;
-              o_busy := o_busy s |},
+              o_canc := o_canc s; o_hold := updf (o_hold s) k (S (o_hold s k)); o_seen := o_seen s |},
            if Nat.ltb 0 (o_hold s k) then 1%N else 0%N)
       | _ => (s, 0%N)
       end
   | AStep t _, KFalse =>
       ({| o_call := updf (o_call s) t None; o_phase := o_phase s; o_has := o_has s; o_canc := o_canc s;
-          o_hold := o_hold s; o_seen := o_seen s; o_busy := o_busy s - 1 |},
+          o_hold := o_hold s; o_seen := o_seen s |},
        if o_canc s t then 0%N else 3%N)
   | AStep t _, KDone =>
-      let rogue_fine := match o_call s t with
-                        | Some (Unlock k) => is_some (o_has s t) || o_seen s t || Nat.ltb (o_phase s t) 2
-                        | _ => true end in
+      let fine := match o_call s t with
+                  | Some (Unlock k) => o_seen s t
+                  | _ => true end in
       ({| o_call := updf (o_call s) t None; o_phase := o_phase s; o_has := o_has s; o_canc := o_canc s;
-          o_hold := o_hold s; o_seen := o_seen s; o_busy := if is_some (o_has s t) then o_busy s else o_busy s - 1 |},
-       if rogue_fine then 0%N else 5%N)
+          o_hold := o_hold s; o_seen := o_seen s |},
+       if fine then 0%N else 5%N)
   | AStep t _, KPanic =>
       let own := match o_call s t with Some (Unlock k) => okey_eqb (o_has s t) k | _ => false end in
       ({| o_call := updf (o_call s) t None; o_phase := o_phase s; o_has := o_has s; o_canc := o_canc s;
-          o_hold := o_hold s; o_seen := o_seen s; o_busy := if is_some (o_has s t) then o_busy s else o_busy s - 1 |},
+          o_hold := o_hold s; o_seen := o_seen s |},
        if own then 4%N else 0%N)
   | _, _ => (s, 0%N)
   end.
 
-(* while a rogue Unlock is in flight, remember whether anybody held its key *)
+(* while an Unlock is in flight, remember whether anybody held its key *)
 Definition o_mark (s : ostate) : ostate :=
   {| o_call := o_call s; o_phase := o_phase s; o_has := o_has s; o_canc := o_canc s; o_hold := o_hold s;
-     o_seen := fun t => o_seen s t || match o_call s t with Some (Unlock k) => Nat.ltb 0 (o_hold s k) | _ => false end;
-     o_busy := o_busy s |}.
+     o_seen := fun t => o_seen s t || match o_call s t with Some (Unlock k) => Nat.ltb 0 (o_hold s k) | _ => false end |}.
 
-Fixpoint oracle_steps (c i : N) (s : ostate) (l : list cstep) : list (N * N) :=
+Fixpoint oracle_steps (c i : N) (n : nat) (s : ostate) (l : list cstep) : list (N * N) :=
   match l with
   | [] => []
   | (a, ob) :: r =>
       let '(s1, code) := o_step s a ob in
       let s2 := o_mark s1 in
-      let code := if N.eqb code 0 then (if Nat.eqb (o_busy s2) 0 && negb (Nat.eqb (snd ob) 0) then 2%N else 0%N) else code in
-      if N.eqb code 0 then oracle_steps c (i + 1) s2 r
-      else (c * 1000 + i, code)%N :: oracle_steps c (i + 1) s2 r
+      let code := if N.eqb code 0 then (if Nat.eqb (o_busy n s2) 0 && negb (Nat.eqb (snd ob) 0) then 2%N else 0%N) else code in
+      if N.eqb code 0 then oracle_steps c (i + 1) n s2 r
+      else (c * 1000 + i, code)%N :: oracle_steps c (i + 1) n s2 r
   end.
 
 Fixpoint oracle_all_from (c : N) (cs : list case) : list (N * N) :=
   match cs with
   | [] => []
-  | x :: r => oracle_steps c 0 o_init (snd x) ++ oracle_all_from (c + 1) r
+  | x :: r => oracle_steps c 0 (fst x) o_init (snd x) ++ oracle_all_from (c + 1) r
   end.
 (* (case index * 1000 + step, code) *)
 Definition oracle_all : list case -> list (N * N) := oracle_all_from 0.
